@@ -102,7 +102,13 @@ int unlink(const char *p) { (void)p; g_unlink_calls++; return 0; }
 int getsockname(int fd, struct sockaddr *a, socklen_t *l) { (void)fd; (void)a; (void)l; return nd_bool() ? 0 : -1; }
 static int g_stat_rc, g_socket_rc, g_bind_rc, g_listen_rc;
 char g_bound_path[112]; bool g_bound;
-int stat(const char *p, struct stat *st) { (void)p; if (g_stat_rc < 0) { errno = ENOENT; return -1; } st->st_mode = nd_bool() ? S_IFDIR : S_IFREG; return 0; }
+int stat(const char *p, struct stat *st) { (void)p; if (g_stat_rc < 0) { errno = ENOENT; return -1; } 
+#ifdef OP_CREATE_PATH
+    st->st_mode = S_IFDIR;        /* the directory exists (otherwise no control interface is created, whatever the path: ctl.create) */
+#else
+    st->st_mode = nd_bool() ? S_IFDIR : S_IFREG;
+#endif
+    return 0; }
 int socket(int d, int t, int p) { (void)d; (void)p; CHECK(t & SOCK_NONBLOCK, "C05: the control listen socket is non-blocking"); if (g_socket_rc < 0) { errno = EMFILE; return -1; } return LISTEN_FD; }
 int bind(int fd, const struct sockaddr *a, socklen_t l) { (void)fd; (void)l; if (g_bind_rc < 0) { errno = EADDRINUSE; return -1; }
 #ifdef OP_CREATE_PATH
